@@ -648,6 +648,108 @@ def alternative_path_value(st):
     return ('agrees', n_ok) if n_ok else None
 
 
+class _Aff(object):
+    def __init__(self, Rm, t):
+        self.R, self.t = Rm, t
+
+
+def frame_value(f, name):
+    """Evaluates the single return expression of a vector conversion over the affine algebra (frame member, inverse(), linear()/rotation(), translation(), transpose(), products, sums) on an exact frame.
+    Returns None when the body is not such an expression; (True, n) when it agrees with the oracle on all witness points; (False, n, t, x, got, want, diff, wrong_frame) otherwise."""
+    st = [s_ for s_ in stmts_sx(f) if s_ != ('expr', 0)]
+    if len(st) != 1 or st[0][0] != 'return':
+        return None
+    pn = f['params'][0]['name']
+    # rotation of the unit quaternion (1, 2, 3, 4)/sqrt(30): exact rational entries
+    a, b, c, d = 1, 2, 3, 4
+    n2 = sp.Integer(a * a + b * b + c * c + d * d)
+    Rm = sp.Matrix([[a * a + b * b - c * c - d * d, 2 * (b * c - a * d), 2 * (b * d + a * c)], [2 * (b * c + a * d), a * a - b * b + c * c - d * d, 2 * (c * d - a * b)],
+                    [2 * (b * d - a * c), 2 * (c * d + a * b), a * a - b * b - c * c + d * d]]) / n2
+    tv = sp.Matrix([4200000, 170000, 4780000])
+
+    class Unsup(Exception):
+        pass
+
+    def ev(t, env):
+        if isinstance(t, (int, float)):
+            return sp.nsimplify(t, rational=True)
+        if isinstance(t, str):
+            if t in env:
+                return env[t]
+            raise Unsup(t)
+        if not isinstance(t, tuple) or not t:
+            raise Unsup(str(t))
+        op = t[0]
+        if op == '.inverse' and len(t) in (2, 3):
+            A = ev(t[1], env)
+            if isinstance(A, _Aff):
+                return _Aff(A.R.T, -A.R.T * A.t)
+            if isinstance(A, sp.MatrixBase) and A.shape == (3, 3):
+                return A.inv()
+            raise Unsup('inverse')
+        if op in ('.linear', '.rotation') and len(t) == 2:
+            A = ev(t[1], env)
+            if isinstance(A, _Aff):
+                return A.R
+            raise Unsup(op)
+        if op == '.translation' and len(t) == 2:
+            A = ev(t[1], env)
+            if isinstance(A, _Aff):
+                return A.t
+            raise Unsup(op)
+        if op == '.transpose' and len(t) == 2:
+            M = ev(t[1], env)
+            if isinstance(M, sp.MatrixBase):
+                return M.T
+            raise Unsup(op)
+        if op in ('.eval', '.matrix', '.array') and len(t) == 2:
+            return ev(t[1], env)
+        if op == '*' and len(t) == 3:
+            A, B = ev(t[1], env), ev(t[2], env)
+            if isinstance(A, _Aff) and isinstance(B, sp.MatrixBase) and B.shape == (3, 1):
+                return A.R * B + A.t
+            if isinstance(A, _Aff) and isinstance(B, _Aff):
+                return _Aff(A.R * B.R, A.R * B.t + A.t)
+            if isinstance(A, _Aff) or isinstance(B, _Aff):
+                raise Unsup('product')
+            return A * B
+        if op in ('+', '-') and len(t) == 3:
+            A, B = ev(t[1], env), ev(t[2], env)
+            if isinstance(A, _Aff) or isinstance(B, _Aff):
+                raise Unsup('sum')
+            return A + B if op == '+' else A - B
+        if op in ('u-', '-') and len(t) == 2:
+            return -ev(t[1], env)
+        if isinstance(op, str) and op.startswith('new:') and len(t) == 2:
+            return ev(t[1], env)
+        raise Unsup(str(op))
+    first, n_ok = None, 0
+    diffs = []
+    for x in (sp.Matrix([4201000, 168500, 4779000]), sp.Matrix([4200000, 170000, 4780000]), sp.Matrix([-1, 2, 3]), sp.Matrix([4300000, -50000, 4600000])):
+        if name == 'toECEF':
+            x = x - tv if x[0] > 1000 else x
+        env = {'this.enu2ecef_': _Aff(Rm, tv), pn: x}
+        try:
+            got = ev(deep_unwrap(st[0][1]), env)
+        except (Unsup, TypeError, ValueError, AttributeError):
+            return None
+        if not (isinstance(got, sp.MatrixBase) and got.shape == (3, 1)):
+            return None
+        want = Rm.T * (x - tv) if name == 'toENU' else Rm * x + tv
+        if got == want:
+            n_ok += 1
+        else:
+            diffs.append(got - want)
+            first = first or (x, got, want)
+    if not first:
+        return (True, n_ok)
+    x, got, want = first
+    same = all(d_ == diffs[0] for d_ in diffs) and len(diffs) > 1
+    wrong_frame = same and name == 'toENU' and diffs[0] == (Rm.T * tv - tv)
+    fmt = lambda M: '(%s)' % ', '.join('%.6g' % float(v_) for v_ in M)
+    return (False, n_ok, fmt(tv), fmt(x), fmt(got), fmt(want), fmt(got - want) + ' (%.4g m)' % float(sp.sqrt(sum(v_ ** 2 for v_ in (got - want)))), wrong_frame)
+
+
 def check_conversions(fx, R):
     want = {
         ('toENU', 'Matrix'): [('return', ('*', ('.inverse', 'this.enu2ecef_', 'Eigen::Transform<double, 3, 2, 0>::Mode'), 'ecefCoordinates'))],
@@ -669,7 +771,17 @@ def check_conversions(fx, R):
         elif name == 'toECEF' and isinstance(got[0][1], tuple) and got[0][1][0] == '*' and contains_inverse(got[0][1]):
             R.violated('E5', 'ENUConverter::toECEF(vector)', 'toECEF applies the inverse transform', fx.rel(fs[0]['loc']), 'E-SIB')
         else:
-            R.undecided('E5', 'ENUConverter::%s(vector)' % name, 'conversion idiom not recognised: %s' % (got,))
+            # by value: the body is evaluated on an exact rational frame (rotation R from a rational quaternion, origin t) and witness points; toENU must give R^T (x - t), toECEF R x + t
+            v_ = frame_value(fs[0], name) if name in ('toENU', 'toECEF') else None
+            if v_ is None:
+                R.undecided('E5', 'ENUConverter::%s(vector)' % name, 'conversion idiom not recognised: %s' % (got,))
+            elif v_[0]:
+                R.holds('E5', 'ENUConverter::%s(vector)' % name, 'evaluated on an exact rational frame and %d witness points: %s' % (v_[1], 'R^T (x - t)' if name == 'toENU' else 'R x + t'), fx.rel(fs[0]['loc']), 'E-STEP')
+            else:
+                R.violated('E5', 'ENUConverter::%s(vector):value' % name, 'evaluated on an exact frame (rotation R, origin t = %s) the overload maps the point %s to %s; %s is %s - they differ by %s, the same for every point '
+                           '(%s): the two directions are no longer mutual inverses and the reference point no longer maps to the origin for ECEF input' % (
+                               v_[2], v_[3], v_[4], 'R^T (x - t)' if name == 'toENU' else 'R x + t', v_[5], v_[6],
+                               'the origin is subtracted in the wrong frame: R^T x - t instead of R^T (x - t)' if v_[7] else 'the difference does not depend on the point'), fx.rel(fs[0]['loc']), 'E-STEP')
     for name in ('toECEF', 'toWGS84'):
         fs = [f for f in fx.fn(Q + name) if len(f['params']) == 3]
         if len(fs) != 1:
